@@ -41,6 +41,23 @@ class SList:
         return f"SList({self.tag}, len={self.length})"
 
 
+class ConsList(SList):
+    """A few known values in front of a symbolic-length list (the *args of f(a, *rest))."""
+    def __init__(self, prefix, rest):
+        self.prefix = list(prefix)
+        self.rest = rest
+        n = len(self.prefix)
+
+        def elem(u):
+            if z3.is_int_value(u):
+                i = u.as_long()
+                return self.prefix[i] if i < n else rest.elem(z3.IntVal(i - n))
+            from .interp import Unsupported
+            raise Unsupported("G-mode: element of a list with object prefix at a symbolic index")
+        SList.__init__(self, z3.simplify(rest.length + n), elem, f"cons({n},{rest.tag})")
+        self.all_expr = getattr(rest, "all_expr", False)
+
+
 class StarArgs:
     """`*slist` in a call."""
     def __init__(self, slist):
@@ -62,8 +79,8 @@ class QM:
         self.ext_done = {}
 
     def add_index(self, t, length):
-        if self.instantiating and z3.is_app(t) and t.decl().kind() in (z3.Z3_OP_ADD, z3.Z3_OP_SUB, z3.Z3_OP_MUL, z3.Z3_OP_UMINUS):
-            return      # shifted indices met while instantiating (t + 1 ...) are not instantiated at in turn
+        if self.instantiating and not (z3.is_const(t) or (z3.is_app(t) and t.decl().kind() == z3.Z3_OP_UNINTERPRETED)):
+            return      # shifted indices met while instantiating (t + 1, ite ...) are not instantiated at in turn
         if t.get_id() not in self.index_ids:
             self.index_ids.add(t.get_id())
             self.index_terms.append((t, length))
@@ -191,7 +208,9 @@ class ChildFamily:
         return self.cache[key]
 
     def slist(self, I):
-        return SList(self.length, lambda t: self.child(I, t), self.name, family=self)
+        r = SList(self.length, lambda t: self.child(I, t), self.name, family=self)
+        r.all_expr = True
+        return r
 
     # denotation symbols per point
     def den_funcs(self, pn):
@@ -292,8 +311,15 @@ def register_zero_lemma(I, body_fn, n):
 def forall_const(I, length, body_fn, tag):
     """A Bool constant B meaning  forall 0 <= i < length. body(i)  (no solver quantifier):
     B => body(t) for every index term t;  not B => body fails at the skolem witness w."""
-    body = z3.simplify(body_fn(IDX))
+    d = _DEPTH[0]
+    _DEPTH[0] = d + 1
+    try:
+        body = z3.simplify(body_fn(BOUND[d]))
+    finally:
+        _DEPTH[0] = d
     key = ("forall", body.sexpr(), z3.simplify(length).sexpr())
+    if keying():
+        return z3.Bool("ALL?" + str(abs(hash(key)) % 10**12))       # a name only
     reg = I.ghost.setdefault("forall_consts", {})
     if key in reg:
         return reg[key]
@@ -309,8 +335,15 @@ def forall_const(I, length, body_fn, tag):
 
 def bigunion(I, length, set_fn, tag):
     """U = union_{i<length} set(i) as a NameSet constant with instantiable facts."""
-    body = z3.simplify(set_fn(IDX))
+    d = _DEPTH[0]
+    _DEPTH[0] = d + 1
+    try:
+        body = z3.simplify(set_fn(BOUND[d]))
+    finally:
+        _DEPTH[0] = d
     key = ("union", body.sexpr(), z3.simplify(length).sexpr())
+    if keying():
+        return z3.Const("UNION?" + str(abs(hash(key)) % 10**12), sym.NameSet)       # a name only
     reg = I.ghost.setdefault("union_consts", {})
     if key in reg:
         return reg[key]
@@ -335,9 +368,14 @@ def skolem_subset(I, A, B, tag):
     return z3.Implies(sym.member(n, A), sym.member(n, B))
 
 
+def shifted_index(u, i):
+    """Index into the original list of the u-th entry of the list with entry i removed."""
+    return z3.simplify(z3.If(u < i, u, u + 1))
+
+
 def without_entry(body_fn, i):
-    """Element function of the list with its i-th entry removed: u |-> body(u) if u < i else body(u+1)."""
-    return lambda u: z3.If(u < i, body_fn(u), body_fn(z3.simplify(u + 1)))
+    """Element function of the list with its i-th entry removed: u |-> body(u < i ? u : u+1)."""
+    return lambda u: body_fn(shifted_index(u, i))
 
 
 def bigprod_without(I, body_fn, i, n):
